@@ -56,6 +56,7 @@ package dir
 //@   callsite inode.(*Inode).Write@1 requires [E7-store] arg0 == dip && arg2 == finalOff && arg3 == 128 && arg4 == ent @C13 @C04
 //@   ensures dirDone(dip, op) && dip.Kind == 2
 //@   loop 0 invariant off & 127 == 0 && lastoff <= off && finalOff == 0 && dip.Size == old(dip.Size) && dip.Kind == 2 && inodeInv(dip) && dirShape(dip) && opOpen(op) && dirtyInv() && allocInv() && (!dirtyinum[dip.Inum] || old(dirtyinum)[dip.Inum]) && othersClean(dip) && listsStable(op.Atxn)
+//@   loop 0 invariant [none-free-so-far] forall o uint64 :: lastoff <= o && o < off && o & 127 == 0 ==> dslot[dip.Inum][o] != 0
 //@   loop 0 decreases dip.Size - off
 //@   loop 0 invariant [ibits] abits[theIalloc] == old(abits)[theIalloc]
 
